@@ -216,6 +216,42 @@ theorem c03_ssh_unfixed_counterexample :
       1790658750000000000 1790658750 18446744073340210366 = false := by
   decide
 
+/-! ### sessions that gained a second factor -/
+
+/-- **Step-up**: however many second-factor step-ups a session went through, the cookie presented
+to `certGenHandler` still carries the login's `iat` and `exp` (the source re-signs the parsed claims
+with only `AuthType` replaced — `c03_sites`), so every bound of `c03_ssh` / `c03_x509` is a bound
+relative to the moment the session was authenticated by its first factor: a late or repeated
+step-up does not restart the 24 hours. -/
+theorem c03_stepup (fsec : Int → Int) (hf : FloatSecs fsec) (s : Session) (lvls : List Nat) (req : Req)
+    (tb t1 t2 ta va vb : Int)
+    (hiat0 : 0 ≤ s.iat) (hiat1 : s.iat < horizon)
+    (h0 : 0 ≤ tb) (h1 : tb ≤ t1) (h2 : t1 ≤ t2) (h3 : t2 ≤ ta) (h4 : ta < horizon) :
+    (stepUps s lvls).iat = s.iat ∧ (stepUps s lvls).exp = s.exp ∧
+    (sshIssue KM.Gen.C03.shape KM.Gen.C03.maxCertificateLifetime fsec req t1 t2 (stepUps s lvls).iat
+        = some (va, vb) → sshOK req s.iat tb ta va vb = true) ∧
+    (x509Issue KM.Gen.C03.shape KM.Gen.C03.maxCertificateLifetime req t1 t2 (stepUps s lvls).iat
+        = some (va, vb) → windowOK req s.iat tb ta va vb = true) := by
+  have hk : ∀ (l : List Nat) (x : Session), (stepUps x l).iat = x.iat ∧ (stepUps x l).exp = x.exp := by
+    intro l
+    induction l with
+    | nil => intro x; exact ⟨rfl, rfl⟩
+    | cons a as ih => intro x; exact ih (stepUp x a)
+  obtain ⟨e1, e2⟩ := hk lvls s
+  rw [e1]
+  exact ⟨rfl, e2, fun h => c03_ssh fsec hf req s.iat tb t1 t2 ta va vb hiat0 hiat1 h0 h1 h2 h3 h4 h,
+    fun h => (c03_x509 req s.iat tb t1 t2 ta va vb hiat0 hiat1 h0 h1 h2 h3 h4 h).1⟩
+
+/-- why the login moment must survive: a step-up that mints a fresh token (`iat := now`) 15 hours
+into a session lets the default request run until 39 h after the login -/
+theorem c03_stepup_remint_counterexample :
+    x509Issue shapeRepaired userCap .absent 1790661645500000000 1790661645600000000
+      (stepUpRemint 1790661645000000000 ⟨1790661645000000000 - 54000000000000, 1790661645000000000 + 3600000000000, 2⟩ 66).iat
+      = some (1790661645, 1790748045) ∧
+    windowOK .absent (1790661645000000000 - 54000000000000) 1790661645400000000 1790661645700000000
+      1790661645 1790748045 = false := by
+  decide
+
 /-! ### fixed-lifetime certificates -/
 
 /-- **Role-requesting certificates**: both parameter parsers set `Duration` to the constant, the
@@ -310,6 +346,11 @@ def expectedFlow : List (String × List (List Char)) := [
   ("sshHandlerDurationWrites", []),
   ("sshValidAfter", ["currentEpoch".toList]),
   ("sshValidBefore", ["expireEpoch".toList]),
+  ("stepUpClaims", ["parsedJWT".toList]),
+  ("stepUpCookieValue", ["state.updateAuthJWTWithNewAuthLevel(authCookie.Value, authlevel)".toList]),
+  ("stepUpMints", []),
+  ("stepUpReturns", ["jwt.Signed(signer).Claims(parsedJWT).Serialize()".toList]),
+  ("stepUpWrites", ["parsedJWT.AuthType = newAuthLevel".toList]),
   ("x509GenDurationArg", ["duration".toList]),
   ("x509HandlerDurationWrites", [])]
 
